@@ -78,6 +78,14 @@ Fillers(g) ==
 \* what separates two tokens in the compact spelling (a blank where two tokens would otherwise run together)
 Glue(a, b) == IF a.g = "" THEN "" ELSE IF a.s \in {"//", "/*", "-"} \/ b.s \in {"//", "/*", "*/", "-"} THEN " " ELSE ""
 
+\* pairs of texts that differ in a NOTE only (added to an annotation that has rules): Check gives both the same verdict, whatever it is -
+\* here for texts in which an annotation stands on a line of its own (refused either way), and after an array item
+NotePairs == { <<"{\n \"a\": 1 // {min: 0}\n // another\n}", "{\n \"a\": 1 // {min: 0} - n\n // another\n}">>,
+               <<"{\n \"a\": 1, // {min: 0}\n // another\n \"b\": 2\n}", "{\n \"a\": 1, // {min: 0} - n\n // another\n \"b\": 2\n}">>,
+               <<"[\n 1, // {min: 0}\n // another\n 2\n]", "[\n 1, // {min: 0} - n\n // another\n 2\n]">>,
+               <<"[\n 1, // {min: 0}\n 2 // {min: 1}\n]", "[\n 1, // {min: 0} - n\n 2 // {min: 1} - m\n]">>,
+               <<"1 // {min: 0}\n// x", "1 // {min: 0} - n\n// x">> }
+ASSUME \A p \in NotePairs : PrintT("@@PAIR " \o ToJson([a |-> p[1], b |-> p[2]]))
 VARIABLES sc, fill, nl      \* fill : gap index -> filler ("" = compact); nl : what the fixed line breaks of the token list are written as
 GapIdx(ts) == {i \in DOMAIN ts : Fillers(ts[i].g) # {}}
 RECURSIVE Build(_, _, _)
